@@ -395,8 +395,27 @@ class Progress:
         matches can stand where parse_nl stopped)"""
         sep = self.regex_of_static('lrlex::parser::RE_LINE_SEP')
         lead = self.regex_of_static('lrlex::parser::RE_LEADING_LINE_SEPS')
-        ws_only = bool(sep) and sep.startswith('[\\p{Pattern_White_Space}&&') and sep.endswith(']')
-        agree = bool(sep) and bool(lead) and lead == '^' + sep + '*'
+        def single_class(r):
+            """r is exactly ONE bracket class `[ ... ]` (nested classes allowed inside), nothing before or after it"""
+            if not r or r[0] != '[':
+                return False
+            depth = 0
+            i = 0
+            while i < len(r):
+                ch = r[i]
+                if ch == '\\':
+                    i += 2
+                    continue
+                if ch == '[':
+                    depth += 1
+                elif ch == ']':
+                    depth -= 1
+                    if depth == 0:
+                        return i == len(r) - 1
+                i += 1
+            return False
+        ws_only = bool(sep) and single_class(sep) and sep.startswith('[\\p{Pattern_White_Space}&&')
+        agree = bool(sep) and bool(lead) and single_class(sep) and lead == '^' + sep + '*'
         return ws_only, agree
 
     def trusted_linesep(self, m):
